@@ -25,7 +25,7 @@ ASSUMPTIONS = [
 ]
 REQUIRED = {"op.del_atom": 500, "op.del_atom.by-element": 50, "op.del_atom.by-label": 50, "op.add_atom.no-charge": 100,
             "op.append_bond.foreign": 50, "op.remove_substituent": 50, "op.add_implicit_hydrogens": 50,
-            "inspect": 5000, "op.raised": 50, "start.unpickled": 5, "start.mol2": 20, "exh.sequences": 1000}
+            "inspect": 5000, "op.raised": 50, "op.connect.stale-or-foreign-atom": 20, "start.unpickled": 5, "start.mol2": 20, "exh.sequences": 1000}
 CHUNK_TIMEOUT = 900
 TECHNIQUE = "runtime monitoring: identity-keyed edit model stepped beside real Molecule/Structure, invariant at quiescent points"
 LEVEL_TEXT = ("Held on the edit histories produced (random long + bounded-exhaustive short): after every edit the real object "
@@ -196,7 +196,11 @@ class Driver:
             elif kind == "connect":
                 a, b = mod.resolve(op[1]), mod.resolve(op[2])
                 expect_raise = a is None or b is None
+                if expect_raise:
+                    ctx.count("op.connect.stale-or-foreign-atom")
                 bond = m.connect(op[1], op[2])
+                if expect_raise:
+                    return self.v("connect:bond-to-an-atom-that-is-not-in-the-molecule-accepted")
                 mod.add_bond(bond)
                 if (bond.a1 is not a or bond.a2 is not b) and (bond.a1 is not b or bond.a2 is not a):
                     return self.v("connect:bond-joins-other-atoms-than-requested")
@@ -314,6 +318,13 @@ def pick_op(rng, d):
         from molli.chem import Atom
         return ("del_atom", "atom", Atom("C"))
     if r < 0.60 and n >= 2:
+        if rng.random() < 0.15:
+            # a stale handle (atom deleted earlier) or an atom of no molecule: must be refused, or at least never
+            # leave a bond to a non-member behind
+            from molli.chem import Atom
+            gone = [a for a in mod._keep if mod.index(a) < 0]
+            stale = rng.choice(gone) if gone and rng.random() < 0.7 else Atom("C", label="stranger")
+            return ("connect", stale, rng.randrange(n)) if rng.random() < 0.5 else ("connect", rng.randrange(n), stale)
         bonded = {frozenset((id(p), id(q))) for _, p, q in mod.bonds}
         for _ in range(6):
             i, j = rng.sample(range(n), 2)
